@@ -33,9 +33,9 @@
 (*     da     sequence of names: $denyallow=n1|n2                          *)
 (*     ip     address token of a hosts line ("null4" for a bare domain)    *)
 (*     bad    $badfilter                                                   *)
-(*   rq     [host, rrtype, c1 |-> BOOLEAN (request comes from client c1),  *)
-(*           named |-> BOOLEAN (c1 is a persistent client, so its name is  *)
-(*           known to the engine)]                                         *)
+(*   rq     [host, rrtype, c1 |-> BOOLEAN (the source address is c1's),    *)
+(*           named |-> BOOLEAN (the request was identified as the          *)
+(*           persistent client's, so its name is known to the engine)]     *)
 (***************************************************************************)
 EXTENDS Sequences, Naturals, FiniteSets
 
@@ -71,7 +71,9 @@ DnsTypeOK(r, t) ==
 
 \* NetworkRule.matchClient: by address, by prefix, or by the persistent
 \* client's name (empty for clients that are not persistent).
-IsClient(r, rq) == rq.c1 /\ (r.clv = "name" => rq.named)
+\* (c1: the source address is c1's; named: the request was identified as the
+\* persistent client's, by ClientID or by address.)
+IsClient(r, rq) == IF r.clv = "name" THEN rq.named ELSE rq.c1
 ClientOK(r, rq) ==
     CASE r.cl = "none"   -> TRUE
       [] r.cl = "only"   -> IsClient(r, rq)
